@@ -4,6 +4,10 @@
 package afpacket
 
 import (
+	"io"
+	"sync"
+	"time"
+
 	"github.com/google/gopacket"
 	afp "github.com/google/gopacket/afpacket"
 	"github.com/google/gopacket/layers"
@@ -12,16 +16,26 @@ import (
 	"golang.org/x/net/bpf"
 )
 
+// pollTimeout bounds how long a read blocks in poll(2), so that a reader
+// notices in time that the source has been closed
+const pollTimeout = 100 * time.Millisecond
+
 type Source struct {
 	handle   *afp.TPacket
 	linkType layers.LinkType
+
+	// mu guards the capture ring: Close unmaps it, so it must not run
+	// while ReadPacketData is still looking at the ring
+	mu     sync.Mutex
+	closed bool
 }
 
 // Assert that AfPacketSource conforms to the packet.ReadWriter interface
 var _ packet.ReadWriter = (*Source)(nil)
 
 func NewPacketSource(iface string, vpnMode bool) (*Source, error) {
-	handle, err := afp.NewTPacket(afp.SocketRaw, afp.OptInterface(iface))
+	handle, err := afp.NewTPacket(afp.SocketRaw, afp.OptInterface(iface),
+		afp.OptPollTimeout(pollTimeout))
 	if err != nil {
 		return nil, err
 	}
@@ -29,7 +43,7 @@ func NewPacketSource(iface string, vpnMode bool) (*Source, error) {
 	if vpnMode {
 		linkType = layers.LinkTypeIPv4
 	}
-	return &Source{handle, linkType}, nil
+	return &Source{handle: handle, linkType: linkType}, nil
 }
 
 // maxPacketLength is the maximum size of packets to capture in bytes.
@@ -54,6 +68,9 @@ func (s *Source) SetBPFFilter(bpfFilter string, maxPacketLength int) error {
 }
 
 func (s *Source) Close() {
+	s.mu.Lock()
+	defer s.mu.Unlock()
+	s.closed = true
 	s.handle.Close()
 }
 
@@ -61,9 +78,25 @@ func (s *Source) Close() {
 // filter runs and hands the tag over out-of-band, so a tagged frame (of any VLAN
 // on a trunk port) looks like an untagged one to the filter and to the packet
 // processors. Such frames are not replies to the untagged probes: skip them.
+//
+// The receiver goroutine outlives the scan engine run that started it (a read
+// blocked in poll is not interrupted by the context), so reads are serialized
+// with Close: a read never touches the ring after Close has unmapped it (that
+// was a SIGSEGV when a frame arrived while a port chunk was being finished),
+// and the frame is copied out of the ring because it is processed after the
+// lock has been released. After Close a read reports io.EOF.
 func (s *Source) ReadPacketData() ([]byte, *gopacket.CaptureInfo, error) {
 	for {
-		data, ci, err := s.handle.ZeroCopyReadPacketData()
+		s.mu.Lock()
+		if s.closed {
+			s.mu.Unlock()
+			return nil, nil, io.EOF
+		}
+		data, ci, err := s.handle.ReadPacketData()
+		s.mu.Unlock()
+		if err == afp.ErrTimeout {
+			continue
+		}
 		if err == nil && vlanTagged(&ci) {
 			continue
 		}
